@@ -324,7 +324,7 @@ def run_pipeline(prop, cases, timeout=600, worker_args=None):
         if o is None:
             o = '((panic "worker died: %s"))' % ("exit %d" % w.returncode)
         jinput.append("%s\t%s\t%s\t%s\n" % (prop, i, c, o))
-    j = subprocess.run([os.path.join(BUILD, "judge")], input="".join(jinput).encode(),
+    j = subprocess.run([os.path.join(BUILD, "judge-" + prop)], input="".join(jinput).encode(),
                        stdout=subprocess.PIPE, stderr=subprocess.PIPE, timeout=timeout)
     if j.returncode != 0:
         raise RuntimeError("judge failed: " + j.stderr.decode()[-2000:])
